@@ -430,7 +430,7 @@ def run(ctx):
     saved_defaults = copy.deepcopy(cfgmod.defaults)
     drv = Driver("C19")
     try:
-        nseq = ctx.n(250, 30000)
+        nseq = ctx.n(4000, 30000)
         for s in range(nseq):
             rng = ctx.rng.fork(s)
             init = "module" if rng.chance(0.5) else "empty"
